@@ -48,7 +48,7 @@ class Proof:
     """
 
     def __init__(self, name, roots, enforce=None, replace=(), harness=None, solver="portfolio", unwind=None,
-                 tier="quick", level="deductive", bound_note="", timeout=900, property_level=(".*",),
+                 tier="quick", level="deductive", bound_note="", timeout=1500, property_level=(".*",),
                  contracts=None, extra_c="", complete_unwind_note="", loop_contracts=True, configure=None,
                  expect_obligations=(), object_bits=None, mem_gb=24, refute=None, replay=None, unwindset=(),
                  desc="", check_flags=()):
